@@ -170,10 +170,13 @@ CHECKS = {
              "decorator - any kind, valid or not, any stack - returns its argument and leaves the world unchanged "
              "(C15_absent_*); each __call__ starts with the early return and no assert of the library has an effect "
              "(C15_source_facts, C15_asserts_effect_free). Tie: translator facts + subprocess matrix (3 modes x 5 "
-             "environments x 72 rows, spec_C15 evaluated in Coq on each observation) + generated programs with "
-             "enabled=True rerun under -O and -OO and compared with the normal interpreter.",
+             "environments x 84 rows, spec_C15 evaluated in Coq on each observation) + generated programs and generated "
+             "histories of definitions with enabled=True spelled out, rerun under -O and -OO and compared with the normal "
+             "interpreter (which found D37: an assert statement that rejected a misuse in the normal mode only; fixed).",
         note=TB + "The second sentence of the property (explicitly enabled contracts are enforced identically under -O) "
-             "is decided by the effect-free-assert fact plus correspondence, not by a theorem about CPython's -O.",
+             "is decided by the effect-free-assert fact plus correspondence, not by a theorem about CPython's -O; an "
+             "assert statement of the library that can fail on input a user can reach is a mode difference the "
+             "correspondence has to find (D37 was one).",
         design="DESIGN.md section 6 C15"),
     "C16": dict(
         text="Theorems: phase order pre, snapshots, body, post with invariants strictly outside (C16_phase_order, "
